@@ -107,7 +107,16 @@ theorem runsGood_snoc (same : α → α → Bool) (s : List α) (rs : List (Int 
     rfl
   nil := by simp
 
-theorem runsLoop_inv (same : α → α → Bool) (s : List α) :
+seal Juniper.Facts.wrap64
+
+/-- `i + 1` for `i < len(s) ≤ MaxInt64` is exact in 64-bit arithmetic -/
+theorem runsEndSame_nat (i : Nat) (h : i < 9223372036854775807) : runsEndSame (i : Int) = ((i + 1 : Nat) : Int) := by
+  unfold runsEndSame; rw [wrap64_of_range (by omega) (by omega)]; omega
+
+theorem runsEndNew_nat (i : Nat) (h : i < 9223372036854775807) : runsEndNew (i : Int) = ((i + 1 : Nat) : Int) := by
+  unfold runsEndNew; rw [wrap64_of_range (by omega) (by omega)]; omega
+
+theorem runsLoop_inv (same : α → α → Bool) (s : List α) (hl64 : s.length ≤ 9223372036854775807) :
     ∀ (fuel i start : Nat) (acc : List (Int × Int)), s.length - i ≤ fuel → start < i → i ≤ s.length →
       RunsGood same s acc start → RunsAdj same s start i → RunsCut same s acc start →
       ∃ (acc' : List (Int × Int)) (start' : Nat),
@@ -132,8 +141,8 @@ theorem runsLoop_inv (same : α → α → Bool) (s : List α) :
       have hga : getI s ((i : Int) - 1) = some (s[i - 1]'(by omega)) := by
         rw [h1]; exact getI_of_lt s (i - 1) (by omega)
       have hgb : getI s (i : Int) = some s[i] := getI_of_lt s i hlt
-      simp only [hcond, if_true, hga, hgb, runsSame, runsEndSame, runsCutLo, runsCutHi,
-        runsStartNew, runsEndNew]
+      simp only [hcond, if_true, hga, hgb, runsSame, runsEndSame_nat i (by omega), runsCutLo, runsCutHi,
+        runsStartNew, runsEndNew_nat i (by omega)]
       have hcast : (i : Int) + 1 = ((i + 1 : Nat) : Int) := by omega
       rw [hcast]
       by_cases hsame : same (s[i - 1]'(by omega)) s[i] = true
@@ -167,7 +176,7 @@ theorem runsLoop_inv (same : α → α → Bool) (s : List α) :
       simp only [hcond]
       exact ⟨acc, start, by simp, hg, hsi, ha, hc⟩
 
-theorem runs_spec (same : α → α → Bool) (s : List α) :
+theorem runs_spec (same : α → α → Bool) (s : List α) (hl64 : s.length ≤ 9223372036854775807) :
     ∃ rs, runs same s = some rs ∧
       (rs.map (fun r => slice s r.1 r.2)).flatten = s ∧
       (∀ r ∈ rs, 0 ≤ r.1 ∧ r.1 < r.2 ∧ r.2 ≤ s.length) ∧
@@ -182,7 +191,7 @@ theorem runs_spec (same : α → α → Bool) (s : List α) :
     · intro i hi; simp at hi
   · have hpos : 0 < s.length := by omega
     obtain ⟨acc', start', hloop, hg, hsl, ha, hc⟩ :=
-      runsLoop_inv same s s.length 1 0 [] (by omega) (by omega) (by omega)
+      runsLoop_inv same s hl64 s.length 1 0 [] (by omega) (by omega) (by omega)
         (runsGood_nil same s) (by intro p _ hp; omega) (by intro h; exact absurd rfl h)
     have hfin := runsGood_snoc same s acc' start' s.length hg hsl (Nat.le_refl _) ha hc
     refine ⟨acc' ++ [((start' : Int), (s.length : Int))], ?_, ?_, hfin.rng, hfin.adj, hfin.bnd⟩
